@@ -125,7 +125,9 @@ def judge_a(tree, out):
         d0 = z3.And([sem.defined(src, env)] + typed) if k in ('ss', 'ff') else da
         b = sem.val(e2, env)
         db = sem.defined(e2, env)
-        differs = z3.Or(a0 - b > mg, b - a0 > mg)   # constant folding happens in f64: 1/(1+2) becomes 0.333..3
+        # constant folding happens in f64 (1/(1+2) becomes 0.333..3): a RELATIVE error, so the margin scales with the value
+        mag = z3.If(a0 >= 0, a0, -a0)
+        differs = z3.Or(a0 - b > mg * (1 + mag), b - a0 > mg * (1 + mag))
         v, pt, _ = zq.query([d0, z3.Or(z3.Not(db), differs)], timeout_ms=QT, want_vars=env)
         res['q'] += 1
         if v == 'unknown':
@@ -204,7 +206,10 @@ def replay_a(tree, fail):
             return 'undefined'
     d['value_before'] = ev(f['from'])
     d['value_after'] = ev(f['to'])
-    return d['value_before'] != d['value_after'], d
+    if 'undefined' in (d['value_before'], d['value_after']):
+        return d['value_before'] != d['value_after'], d
+    a, b = Fraction(d['value_before']), Fraction(d['value_after'])
+    return abs(a - b) > Fraction(1, 10 ** 9) * (1 + abs(a)), d
 
 
 # ------------------------------------------------------------------ (b) constant re-spellings through the text front door
